@@ -494,11 +494,188 @@ def r09d(ctx):
                where(fn))
 
 
+# ---------------------------------------------------------------------------------------
+def true_tokens(fn: FunctionInfo) -> Set[str]:
+    """op tokens (function targets, method names, module classes) for which a predicate of
+    inspection.py returns True; side conditions (n.op, dim == 1, depthwise) are dropped, so a
+    token stands for "a node of that op in the configuration the predicate accepts"."""
+    o = op_sets(fn)
+    return set(o['functions']) | set(o['modules'])
+
+
+def _eval3(e: ast.AST, flags: Dict[str, bool], var: str) -> Optional[bool]:
+    """three-valued evaluation of a boolean expression over  <var>.meta['key']  atoms"""
+    if isinstance(e, ast.BoolOp):
+        vals = [_eval3(v, flags, var) for v in e.values]
+        if isinstance(e.op, ast.Or):
+            if any(v is True for v in vals):
+                return True
+            return False if all(v is False for v in vals) else None
+        if any(v is False for v in vals):
+            return False
+        return True if all(v is True for v in vals) else None
+    if isinstance(e, ast.UnaryOp) and isinstance(e.op, ast.Not):
+        v = _eval3(e.operand, flags, var)
+        return None if v is None else not v
+    if isinstance(e, ast.Subscript) and isinstance(e.value, ast.Attribute) and \
+            e.value.attr == 'meta' and isinstance(e.slice, ast.Constant) and \
+            isinstance(e.value.value, ast.Name) and e.value.value.id == var:
+        return flags.get(e.slice.value)
+    if isinstance(e, ast.Call) and isinstance(e.func, ast.Attribute) and e.func.attr == 'get' and \
+            isinstance(e.func.value, ast.Attribute) and e.func.value.attr == 'meta' and e.args and \
+            isinstance(e.args[0], ast.Constant):
+        return flags.get(e.args[0].value)
+    if isinstance(e, ast.Constant):
+        return bool(e.value)
+    return None
+
+
+def r09e(ctx):
+    """Width sharing agrees with width derivation.  build_shared_features_map removes the
+    incoming edges of a node from the sharing graph exactly when the node's features do not
+    follow those of its input: for every op token of the classification tables, the cut
+    condition (evaluated on the flags that token gets) must be False when
+    add_features_calculator derives the node's calculator from its first input's calculator
+    (propagate / flatten / squeeze / shared-input), and True when the calculator is the node's
+    own or a concatenation."""
+    repo = ctx.repo
+    props = repo.fn('add_single_node_properties')
+    pred_of: Dict[str, FunctionInfo] = {}
+    for n in ast.walk(props.node):
+        if isinstance(n, ast.Assign) and len(n.targets) == 1 and \
+                isinstance(n.targets[0], ast.Subscript) and \
+                isinstance(n.targets[0].slice, ast.Constant) and isinstance(n.value, ast.Call) and \
+                isinstance(n.value.func, ast.Name):
+            try:
+                pred_of[n.targets[0].slice.value] = repo.fn('inspection.' + n.value.func.id)
+            except AnalysisError:
+                pass
+    ctx.floor('R09e', 'node flags with a predicate', len(pred_of), 8)
+    tokens_of = {k: true_tokens(f) for k, f in pred_of.items()}
+    # derivation kind of every branch of the add_features_calculator chain
+    afc = repo.fn('add_features_calculator')
+    chain_kind: List[Tuple[str, str]] = []
+
+    def assigned_calcs(body) -> List[ast.AST]:
+        out = []
+        for st in body:
+            for n in ast.walk(st):
+                if isinstance(n, ast.Assign) and isinstance(n.targets[0], ast.Subscript) and \
+                        isinstance(n.targets[0].slice, ast.Constant) and \
+                        n.targets[0].slice.value == 'features_calculator':
+                    out.append(n.value)
+        return out
+
+    def kind_of(body) -> str:
+        local = {}
+        for st in body:
+            for n in ast.walk(st):
+                if isinstance(n, ast.Assign) and len(n.targets) == 1 and \
+                        isinstance(n.targets[0], ast.Name):
+                    local[n.targets[0].id] = n.value
+        kinds = set()
+        for v in assigned_calcs(body):
+            txt = ast.unparse(v)
+            for name, d in local.items():
+                if name in {x.id for x in ast.walk(v) if isinstance(x, ast.Name)}:
+                    txt += ' <- ' + ast.unparse(d)
+            if 'Concat' in txt:
+                kinds.add('stack')
+            elif "all_input_nodes[0].meta['features_calculator']" in txt:
+                kinds.add('follow')
+            else:
+                kinds.add('own')
+        if not kinds:
+            return 'none'
+        return kinds.pop() if len(kinds) == 1 else 'mixed:' + '/'.join(sorted(kinds))
+
+    top = None
+    for n in ast.walk(afc.node):
+        if isinstance(n, ast.If):
+            keys = [k for _v, k in case_chain_from(n)]
+            if top is None or len(keys) > len(top[1]):
+                top = (n, keys)
+    cur = top[0]
+    while cur is not None:
+        key = None
+        for c in ast.walk(cur.test):
+            if isinstance(c, ast.Subscript) and isinstance(c.value, ast.Attribute) and \
+                    c.value.attr == 'meta' and isinstance(c.slice, ast.Constant):
+                key = c.slice.value
+                break
+        chain_kind.append((key or ast.unparse(cur.test)[:30], kind_of(cur.body)))
+        nxt = cur.orelse
+        cur = nxt[0] if len(nxt) == 1 and isinstance(nxt[0], ast.If) else None
+    ctx.floor('R09e', 'branches of add_features_calculator', len(chain_kind), 8)
+    # the cut condition
+    bs = repo.fn('build_shared_features_map')
+    cut = None
+    for n in ast.walk(bs.node):
+        if isinstance(n, ast.If) and any(isinstance(x, ast.Call) and
+                                         isinstance(x.func, ast.Attribute) and
+                                         x.func.attr in ('remove_edge', 'remove_edges_from')
+                                         for st in n.body for x in ast.walk(st)):
+            cut = n
+            break
+    if cut is None:
+        raise AnalysisError('R09e: edge-removal condition of build_shared_features_map not found')
+    var = next((x.value.value.id for x in ast.walk(cut.test)
+                if isinstance(x, ast.Subscript) and isinstance(x.value, ast.Attribute) and
+                x.value.attr == 'meta' and isinstance(x.value.value, ast.Name)), 'n')
+    all_tokens = set().union(*tokens_of.values())
+    both = tokens_of.get('features_defining', set()) & tokens_of.get('features_propagating', set())
+    worlds = []
+    for o in sorted(all_tokens):
+        flags = {k: o in toks for k, toks in tokens_of.items()}
+        if o in both:       # convolution: defining unless depthwise, then propagating
+            worlds.append((o + ' (standard)', dict(flags, features_propagating=False)))
+            worlds.append((o + ' (depthwise)', dict(flags, features_defining=False)))
+        else:
+            worlds.append((o, flags))
+    ctx.floor('R09e', 'op tokens', len(worlds), 30)
+    n_ob = 0
+    for o, flags in worlds:
+        kind = None
+        for key, k in chain_kind:
+            if flags.get(key):
+                kind = (key, k)
+                break
+        if kind is None or kind[1] in ('none',) or kind[1].startswith('mixed'):
+            continue
+        c = _eval3(cut.test, flags, var)
+        want = kind[1] != 'follow'
+        n_ob += 1
+        ok = c is want
+        ctx.ob('R09e', f'width sharing of {o} nodes', ok,
+               (f'{kind[0]}: calculator {kind[1]}s, edges ' + ('cut' if want else 'kept')) if ok else
+               f'a {o} node is handled by the "{kind[0]}" case of add_features_calculator (its '
+               f'features {"follow its first input" if kind[1] == "follow" else "are its own / stacked"}) '
+               f'but build_shared_features_map {"cuts" if c else "keeps" if c is False else "may cut"} its '
+               f'incoming edges ("{ast.unparse(cut.test)}"): '
+               + ('producers on the two sides of such a node get independent maskers, so operands of '
+                  'a later add/concat can be pruned differently and consumers see a width that '
+                  'does not reach them' if not want else
+                  'layers with independent widths are forced to share one masker'),
+               f'{bs.module.relpath}:{cut.lineno}')
+    ctx.floor('R09e', 'decided op tokens', n_ob, 25)
+
+
+def case_chain_from(node: ast.If) -> List[Tuple[str, str]]:
+    out = []
+    cur: Optional[ast.If] = node
+    while cur is not None:
+        out.append(('n', ast.unparse(cur.test)[:30]))
+        nxt = cur.orelse
+        cur = nxt[0] if len(nxt) == 1 and isinstance(nxt[0], ast.If) else None
+    return out
+
+
 def run(ctx):
     r09a(ctx)
     r09b(ctx)
     r09c(ctx)
     r09d(ctx)
+    r09e(ctx)
     ctx.assume('torch.cat keeps the order of its inputs; buffers registered under distinct names '
                'are distinct state')
 
